@@ -107,6 +107,22 @@ CLAIMED['C18'] = (
     '8 type-confusion pairs never return; CBMC bounds checks on throughout.',
     IO_NOTE + '; a virtual call on the null text-properties object terminates the process', 'bounded symbolic execution over an I/O channel model (clang IR -> C -> CBMC) + SAT/SMT portfolio', 'DESIGN.md section 4, C18')
 
+CLAIMED['C15'] = (
+    'Snapshot queries through the real evaluation chain (bootstrapping FFT and coefficient variants, blind rotation, blind-rotate-and-extract, key '
+    'switch, extraction, three external products): every input object - sample, exponents, test polynomial, all TGSW / key-switching rows, FFT image, '
+    'parameter tables - is bit-identical after the call, the generator word is unchanged and the recording RNG stub sees no draw. Alias queries: 13 '
+    'gates x {result=a, =b, =c, a=b, all equal} give the same result as with a distinct output.',
+    TRUST + '; A2; key material concrete pseudo-random in the whole-chain snapshot queries (symbolic in the single-step ones); gates composed with deterministic stand-ins for the three callees in the alias queries',
+    'bounded symbolic execution (clang IR -> C -> CBMC) + SAT/SMT portfolio', 'DESIGN.md section 4, C15')
+CLAIMED['C07'] = (
+    'PARTIAL (structure, not statistics). With a recording RNG stub whose every draw is an arbitrary value of its range: keys are one {0,1} draw per '
+    'coefficient; every mask coefficient of every fresh TGSW row / bootstrapping-key row is its own full-range uniform draw; every row phase equals its '
+    'gadget message plus the torus image of exactly one gaussian draw whose sigma is the configured level (alpha argument, accumulator alpha_min for '
+    'bootstrapping rows, input alpha_min for key-switching rows); no draw beyond those; all from the library generator. LWE/TLWE/gate ciphertexts: C03; '
+    'key-switching key: C08.',
+    TRUST + '; A2; M-RNG stubs; FP ops uninterpreted. NOT claimed (not decidable by a solver): uniformity, variance, kurtosis, key balance, seed reproducibility',
+    'bounded symbolic execution with a recording RNG stub (clang IR -> C -> CBMC) + SAT/SMT portfolio', 'DESIGN.md section 4, C07')
+
 NOT_APPLICABLE = {
     'C02': 'statistical claim (mean/stdev/tail of the phase error of the real FFT pipeline at N=1024): a solver decides for-all/exists and the for-all version is false; its deterministic mechanisms are decided under C12, C08, C07, C19, C01',
     'C10': 'double-precision rounding error of 2048-point FFTs, three of five back-ends being hand-written AVX/FMA assembly or FFTW: bit-precise FP is out of solver reach beyond N~2 and a sound real-arithmetic over-approximation exceeds the stated 2 units',
